@@ -249,12 +249,13 @@ def h_lossless() -> bool:
         creator, sect = "O", pb.UD(payload, sub=2, comp=0x2000)
     else:
         creator, sect = "O", pb.UD(payload, sub=9, comp=0x2000)
-    data = mkbytes(pb.flat(sect), b"\xEE\xEE")
+    tail = b"\xEE\xEE" if bool(sym_bool("followed")) else b""      # the section may be the last thing in the file
+    data = mkbytes(pb.flat(sect), tail)
     try:
         with env(present=False) as e:
             name, out, used = decode(data, creator)
             back = hd.parse(out["Data"])
     except Exception as ex:
         return verdict(False, obs={"exception": repr(ex)})
-    conds = [used == len(data) - 2, len(back) == L, bytes_eq(back, payload) if len(back) == L else False]
+    conds = [used == len(data) - len(tail), len(back) == L, bytes_eq(back, payload) if len(back) == L else False]
     return verdict(sym_all(conds), obs={"data_lines": out.get("Data")})
